@@ -3,3 +3,4 @@ KITS := chainkit
 SCHED := 1
 CXXEXTRA := -fsanitize=thread
 TSAN_SRCS := coins.cpp
+AUX_TSAN := aux/tsan_free.cpp
